@@ -23,7 +23,8 @@
 (*  "import_theta"  [segs: <<<<pfx, base, s, e>>>>, ploidy, C: one sequence per interval of the results file, each    *)
 (*                   with one entry per subclone (-1 = "X"), nll, mu: <<normal, tumour...>> (units 1/1000),           *)
 (*                   p: per interval (-1 = "X", units 1/1000), parsed: what parse_theta_results returned,             *)
-(*                   out: per subclone <<<<pfx, base, s, e, cn, pow>>>> with pow = 2^log2 observed, err]              *)
+(*                   out: per subclone <<<<pfx, base, s, e, cn, pow>>>> with pow = 2^log2 observed,                   *)
+(*                   exp: <<<<start, end>>>> of the rows export_theta writes for these very segments (round trip), err] *)
 (*  "unpipe"        [parts (the name split on "|"), out, err]                                                         *)
 (*  "import_picard" [rows: <<<<pfx, base, start1, end, parts, gc, dn, rn>>>> (coverages in units 1/CU, gc 1/100),     *)
 (*                   CU, too_many, warned, out: <<<<pfx, base, s, e, gene, gc, depth, ratio, isnull, pow>>>>, err]    *)
@@ -248,6 +249,10 @@ ItLog2OK(r) == \A k \in 1..Len(r.out) : \A m \in 1..Len(r.out[k]) :
     IN /\ ~row[6].nan
        /\ IF row[5] > 0 THEN FxClose(pw, FxFromRat(row[5], r.ploidy), FxTol9)
           ELSE ZSign(pw) > 0 /\ ZLt(pw, FxFromRat(1, r.ploidy))
+(* round trip: doc/heterogeneity.rst "generate the THetA2 input files from the .cns ... run THetA2 ... import THetA2's    *)
+(* results back ..., matching the original segmentation": the i-th interval export_theta writes is the i-th segment      *)
+(* do_import_theta assigns a copy number to (both keep the same segments, in the same order)                            *)
+ItRoundTripOK(r) == r.exp = [k \in 1..Len(ItKept(r)) |-> <<ItKept(r)[k][3], ItKept(r)[k][4]>>]
 (* A-layer: carry = TRUE is the code (the table reduced by one subclone's missing entries is reused for the next,     *)
 (* whose copies are cut to its length); carry = FALSE starts every subclone from the kept segments.                   *)
 (* Result <<error?, outputs>>                                                                                        *)
@@ -383,7 +388,7 @@ Clauses(op) ==
     CASE op = "export_theta" -> {"et_noerr", "et_columns", "et_rows", "et_chrm", "et_tumor_count", "et_normal_count",
                                  "et_empty"}
       [] op = "theta_snps" -> {"snp_noerr", "snp_rows"}
-      [] op = "import_theta" -> {"it_noerr", "pt_fields", "it_one_per_subclone", "it_assigned", "it_log2"}
+      [] op = "import_theta" -> {"it_noerr", "pt_fields", "it_one_per_subclone", "it_assigned", "it_log2", "rt_same_intervals"}
       [] op = "unpipe" -> {"up_noerr", "up_name"}
       [] op = "import_picard" -> {"ip_noerr", "ip_rows", "ip_log2", "ip_warning"}
       [] op = "metrics" -> {"mt_noerr", "mt_rows", "mt_segments", "mt_stdev", "mt_mad", "mt_iqr", "mt_bivar",
@@ -409,6 +414,7 @@ Holds(c, r) ==
       [] c = "it_one_per_subclone" -> NoErr(r) => Len(r.out) = NSub(r)
       [] c = "it_assigned" -> NoErr(r) => ItAssignedOK(r)
       [] c = "it_log2" -> NoErr(r) => ItLog2OK(r)
+      [] c = "rt_same_intervals" -> r.exp_ok => ItRoundTripOK(r)
       [] c = "up_noerr" -> NoErr(r)
       [] c = "up_name" -> NoErr(r) => UnpipeOK(r.parts, r.out)
       [] c = "ip_noerr" -> NoErr(r)
@@ -456,9 +462,10 @@ Premise(r) ==
             /\ \A k \in 1..Len(r.rows) : r.rows[k][3] >= 1 /\ r.rows[k][7] >= 0 /\ r.rows[k][8] >= 0 /\ Len(r.rows[k][5]) >= 1
             /\ r.rows # <<>>
       [] r.op = "metrics" ->
-            (* at least one coverage table; segments of a set pairwise disjoint; every bin lies inside one segment of  *)
+            (* at least one coverage table; no empty segment table; segments of a set pairwise disjoint; every bin lies inside one segment of  *)
             (* its set or overlaps none ("the bins it covers" is then unambiguous)                                    *)
             /\ NSamples(r) >= 1
+            /\ \A j \in 1..Len(r.segsets) : r.segsets[j] # <<>>     \* (an empty table is falsy: residuals() then falls back to chromosome medians)
             /\ \A j \in 1..Len(r.segsets) : \A a, b \in 1..Len(r.segsets[j]) :
                   a # b => ~OverlapsSeg(r.segsets[j][a], r.segsets[j][b])
             /\ Compatible(r) => \A i \in 1..NSamples(r) : r.nsegsets > 0 =>
